@@ -343,7 +343,8 @@ static void decide(Thread* me, bool me_enabled, int why) {
         d.mask = mask;
         d.def = def;
         d.chosen = chosen;
-        d.cost = (me_enabled && why == 0) ? 1 : 0;
+        // leaving a thread that could continue costs one deviation: a preemption at a point, or not continuing after a yield
+        d.cost = (me_enabled && (why == 0 || why == 2)) ? 1 : 0;
         d.why = why;
         d.line = me != nullptr ? me->line : 0;
         d.file = me != nullptr ? me->file : "";
@@ -674,6 +675,7 @@ static bool account(Harness& h, const Options& opt, const ExecResult& r, const F
 
 static void dfs(Harness& h, const Options& opt, int bound, const std::vector<Deviation>* resume_after) {
     std::vector<Frame> st;
+    long shard_counter = 0;
     auto run_frame = [&](const std::vector<Deviation>& prefix, int cost, bool count_it) -> bool {
         Frame f;
         f.prefix = prefix;
@@ -723,21 +725,8 @@ static void dfs(Harness& h, const Options& opt, int bound, const std::vector<Dev
             Frame& f = st.back();
             const Deviation& d = (*resume_after)[k];
             if (size_t(d.idx) >= f.decs.size()) terminal(V_DIVERGED, "resume: ancestor shorter than recorded deviation");
-            // position the cursor just after the alternative that was taken
-            if (f.prefix.empty() && opt.nshards > 1) {
-                // recount root alternatives up to and including this one
-                long cnt = 0;
-                for (size_t i = 0; i <= size_t(d.idx); ++i) {
-                    const Decision& dc = f.decs[i];
-                    for (int t = 0; t < kMaxThreads; ++t) {
-                        if (((dc.mask >> t) & 1u) == 0 || t == dc.def) continue;
-                        if (cost + dc.cost > bound) continue;
-                        if (i == size_t(d.idx) && t > d.tid) break;
-                        cnt++;
-                    }
-                }
-                f.rootalt = cnt;
-            }
+            // position the cursor just after the alternative that was taken (shard counters restart: with
+            // sharding a resumed exploration may repeat or skip alternatives, so the driver never resumes sharded runs)
             f.i = size_t(d.idx);
             f.alt = d.tid + 1;
             cost += f.decs[size_t(d.idx)].cost;
@@ -762,8 +751,8 @@ static void dfs(Harness& h, const Options& opt, int bound, const std::vector<Dev
                 while (f.alt < kMaxThreads) {
                     int t = f.alt++;
                     if (((dc.mask >> t) & 1u) == 0 || t == dc.def) continue;
-                    if (f.prefix.empty() && opt.nshards > 1) {
-                        long k = f.rootalt++;
+                    if (opt.nshards > 1 && int(f.prefix.size()) == opt.shard_depth) {
+                        long k = shard_counter++;
                         if (k % opt.nshards != opt.shard) continue;
                     }
                     d.idx = int(f.i);
@@ -783,7 +772,9 @@ static void dfs(Harness& h, const Options& opt, int bound, const std::vector<Dev
         }
         std::vector<Deviation> np = f.prefix;
         np.push_back(d);
-        if (!run_frame(np, ncost, true)) return;
+        // executions above the cut are run by every shard (they are needed to find the cut) but counted once
+        bool count_it = opt.nshards <= 1 || int(np.size()) > opt.shard_depth || opt.shard == 0;
+        if (!run_frame(np, ncost, count_it)) return;
     }
 }
 
